@@ -2,7 +2,7 @@ import BfeVerif.Common.Proto
 import BfeVerif.C47.Model
 /-!
   C47 driver.
-  op     : `<ws|tls|tlsr>;pc=<hex>;pb=<hex>;s=<step>,...`   step = `c:<hex>` | `b:<hex>` | `xc` | `xb`
+  op     : `<ws|tls|tlsr|t10c|t11c|t12c|t12g>;pc=<hex>;pb=<hex>;s=<step>,...`   step = `c:<hex>` | `b:<hex>` | `xc` | `xb`
   result : `B=<hex backend received> C=<hex client received> bclosed=<0|1> cclosed=<0|1>`
   (tlsr = TLS stream tunnel over a RESUMED session whose first application data travels in the same write as the
    client's ChangeCipherSpec+Finished; for the model it is a TLS tunnel whose first client write is pc)
@@ -17,8 +17,8 @@ inductive Sc
 
 def parseStep (s : String) : Option Sc :=
   if s == "xc" then some .xc else if s == "xb" then some .xb
-  else if s.startsWith "c:" then (bytesOfHex (s.drop 2).toString).map .c
-  else if s.startsWith "b:" then (bytesOfHex (s.drop 2).toString).map .b
+  else if s.startsWith "c:" || s.startsWith "C:" then (bytesOfHex (s.drop 2).toString).map .c
+  else if s.startsWith "b:" || s.startsWith "B:" then (bytesOfHex (s.drop 2).toString).map .b
   else none
 
 def stripKey (s k : String) : Option String :=
@@ -31,14 +31,31 @@ def render (B C : Bytes) (bc cc : Bool) : String :=
 def sizeTag (n : Nat) : String :=
   if n = 0 then "z0" else if n < 4096 then "small" else if n ≤ 32768 then "mid" else "big"
 
+/-- `wr;v=<t10c|t11c|t12c|t12g>;n=<len>,...`: the `Conn.Write` contract -/
+def runWrite (v ns impl : String) : Ans :=
+  match (ns.splitOn ",").mapM String.toNat? with
+  | none => { model := "bad-op", verdict := "skip" }
+  | some lens =>
+    let ks := lens.map fun n => toString (writeCount (v == "t10c") (v != "t12g") n) ++ "/0"
+    let m := "k=" ++ ",".intercalate ks ++ " rcv=" ++ toString lens.sum ++ " same=1"
+    -- spec: every Write returns (len, nil) and the peer receives exactly those bytes
+    let spec := "k=" ++ ",".intercalate (lens.map fun n => toString n ++ "/0") ++ " rcv=" ++ toString lens.sum ++ " same=1"
+    { model := m
+      verdict := if impl == spec then "ok" else "FAIL:tls-write-count-contract"
+      tags := ["wr", v] ++ (if lens.any (· > 1) then ["nt"] else []) ++ (if lens.any (· > 16384) then ["multi-record"] else []) }
+
 def run (op impl : String) : Ans :=
   match op.splitOn ";" with
+  | ["wr", fv, fn] =>
+    match stripKey fv "v=", stripKey fn "n=" with
+    | some v, some ns => runWrite v ns impl
+    | _, _ => { model := "bad-op", verdict := "skip" }
   | [proto, fpc, fpb, fs] =>
     match stripKey fpc "pc=", stripKey fpb "pb=", stripKey fs "s=" with
     | some hpc, some hpb, some hs =>
       match bytesOfHex hpc, bytesOfHex hpb, (if hs == "-" then some [] else (hs.splitOn ",").mapM parseStep) with
       | some pc, some pb, some script =>
-        if proto != "ws" && proto != "tls" && proto != "tlsr" then { model := "bad-op", verdict := "skip" } else
+        if !(["ws", "tls", "tlsr", "t10c", "t11c", "t12c", "t12g"].contains proto) then { model := "bad-op", verdict := "skip" } else
         -- steps up to and including the first close; a script without close ends with the client closing
         let rec cut : List Sc → List Sc
           | [] => [.xc]
